@@ -14,7 +14,7 @@ UPA_SPEC = {0: (".well-known", "core"), 1: (".well-known", "rd"), 2: (".well-kno
             304: (".well-known", "est", "skg"), 305: (".well-known", "est", "skc"), 306: (".well-known", "est", "att"),
             401: (".well-known", "brski", "es"), 402: (".well-known", "brski", "rv"), 403: (".well-known", "brski", "vs")}
 ATTR_VALUES = {"ct": ["40", "0", "0 41"], "rt": ["x", "x y", "temp", "", "core.rd x"], "if": ["i1", "core.s", "i1 i2"], "obs": [None],
-               "title": ["hello", "t", 'say "hi"'], "sz": ["10", "1"], "rel": ["r", "hosts"], "Title": ["hello"], "anchor": ["/a"], "foo": ["bar", None]}
+               "title": ["hello", "t", 'say "hi"'], "sz": ["10", "1"], "rel": ["r", "hosts item", "hosts"], "Title": ["hello"], "anchor": ["/a"], "foo": ["bar", None]}
 SINGLE_VALUED = ["rel", "anchor", "rev", "media", "title", "title*", "type"]
 PY_ATTRS = ["to_py", "get_context", "get_target", "attr_pairs"]
 IMPLS = [None, "https://example.org/impl", "impl"]
